@@ -103,9 +103,15 @@ type GovAgent struct {
 	baseAgent
 	queue []sdk.Msg
 	voted map[uint64]bool
+	seen  []sdk.Msg // every authority message governance has proposed (valid content for the attacker to re-sign)
 }
 
-func (a *GovAgent) Propose(m sdk.Msg) { a.queue = append(a.queue, m) }
+func (a *GovAgent) Propose(m sdk.Msg) {
+	a.queue = append(a.queue, m)
+	if len(a.seen) < 64 {
+		a.seen = append(a.seen, m)
+	}
+}
 
 func (a *GovAgent) Step(s *Sim) {
 	gov := s.W.GovAddr.String()
